@@ -227,7 +227,15 @@ SlashValid(rec) == IsSlash(rec) /\ IsPos(SlashFraction(rec)) /\ BLe(SlashFractio
 
 \* the callback claims rewards for the destination positions of pending redelegations before it touches them: with a short
 \* pool (K1 after a slash under existing indices, K2 rounding) that claim fails, the callback aborts and leaves the rest undone
-HookFundsKF(rec, gh) == IF rec.ev = "SlashHook" /\ ~rec.res.ok /\ rec.res.errc = "funds" THEN (IF gh.slashed THEN "K1" ELSE IF ~IsEmptyMap(gh.k2) THEN "K2" ELSE "") ELSE ""
+RedDstOut(gh, pre, v) == {<<gh.red[i].d, gh.red[i].dst, gh.red[i].a>> : i \in {i \in DOMAIN gh.red : gh.red[i].src = v /\ gh.red[i].due >= pre.now}}
+HookFundsKF(rec, gh, pre) ==
+  IF rec.ev # "SlashHook" \/ rec.res.ok THEN ""
+  ELSE IF rec.res.errc = "funds" THEN (IF gh.slashed THEN "K1" ELSE IF ~IsEmptyMap(gh.k2) THEN "K2" ELSE "")
+  \* K8: the callback converts the tokens to take from a redelegation destination into shares with the 1:1 shortcut / the
+  \* 0.01-share margin; on a destination validator in K8's state the conversion exceeds the position's shares and is refused
+  ELSE IF rec.res.errc = "shares" /\ ValExists(pre, rec.args.v)
+          /\ \E t \in RedDstOut(gh, pre, rec.args.v) : OrphanedOnValidator(pre, t[2], t[3]) \/ PriceInflated(pre, t[2], t[3]) THEN "K8"
+  ELSE ""
 KeyBag(sq) == BagOfSeq([i \in DOMAIN sq |-> <<sq[i].d, sq[i].v, sq[i].a, sq[i].due>>])
 SlashLedger(unb, v, f, now) ==
   [i \in DOMAIN unb |-> IF unb[i].v = v /\ unb[i].due >= now THEN [unb[i] EXCEPT !.amt = BSub(@, TruncInt(DMulInt(f, @)))] ELSE unb[i]]
@@ -333,7 +341,7 @@ GhostNext(gh, pre, rec, post, conforms) ==
       \* resynchronise on the real queue when it disagrees (reported once by the step predicates)
       \* ... except when a slash left amounts unreduced (same entries, other amounts, and no listed finding aborted the callback):
       \* the ledger keeps what is owed - a minus the slashes - so that the payout is judged against it (C02)
-      keepOwed == SlashValid(rec) /\ ValExists(pre, e.v) /\ HookFundsKF(rec, gh) = "" /\ KeyBag(unb1) = KeyBag(LedgerOfState(post))
+      keepOwed == SlashValid(rec) /\ ValExists(pre, e.v) /\ HookFundsKF(rec, gh, pre) = "" /\ KeyBag(unb1) = KeyBag(LedgerOfState(post))
       unb2 == IF BagOfSeq(unb1) = UnbBagOfState(post) THEN unb1 ELSE IF keepOwed \/ (gh.unbOff /\ KeyBag(unb1) = KeyBag(LedgerOfState(post))) THEN unb1 ELSE LedgerOfState(post)
       unbOff2 == BagOfSeq(unb2) # UnbBagOfState(post)
       red1 == CASE rec.ev = "Redelegate" /\ rec.res.ok ->
@@ -350,8 +358,11 @@ GhostNext(gh, pre, rec, post, conforms) ==
       \* K1 budget: a slash raises the token value of positions (on the other validators, and of the co-delegators of a
       \* redelegation destination) whose reward indices are still outstanding: each such position can now claim its outstanding
       \* index times the value it gained, which nobody paid into the pool
-      k1add == IF ~(SlashValid(rec) /\ ValExists(pre, e.v)) THEN NoCoins
-               ELSE LET ks == {k \in DOMAIN pre.dels \cap DOMAIN post.dels : k[3] \in DOMAIN pre.assets \cap DOMAIN post.assets /\ k[2] \in DOMAIN pre.vals}
+      \* (the same arithmetic covers every other passive gain - a position whose shares did not change but whose value rose:
+      \* the value jumps of K8 and K3b, where a deposit or a withdrawal of one delegator lands on another's position)
+      k1add == IF rec.ev \in {"BeginBlock", "Accrue", "AccrueFees", "Claim", "StakingEndBlock"} THEN NoCoins
+               ELSE LET ks == {k \in DOMAIN pre.dels \cap DOMAIN post.dels : k[3] \in DOMAIN pre.assets \cap DOMAIN post.assets /\ k[2] \in DOMAIN pre.vals
+                                                                         /\ (SlashValid(rec) \/ pre.dels[k].shares = post.dels[k].shares)}
                         \* (the callback itself indexes the rewards pending for the destination validators before it cuts the destination
                         \* positions, whose co-delegators then gain: the outstanding index is taken after the step as well)
                         rdsOf(k) == {h[2] : h \in {h \in DOMAIN pre.vals[k[2]].hist \cup DOMAIN Info(post, k[2]).hist : h[1] = k[3]}}
@@ -453,7 +464,8 @@ C02_Step(pre, rec, post, gh) ==
                      IN  IF gh.unbOff THEN KeyBag(nw) = KeyBag(LedgerOfState(post)) ELSE BagOfSeq(nw) = UnbBagOfState(post),
               "undelegation of " \o e.x \o " " \o e.a \o " did not produce exactly one pending entry of that amount due at t + unbonding period")
         \cup Check("C02", PaidOnlyRewards(pre, post, e.a), "undelegation paid out staked coins immediately")
-      ELSE IF IsSlash(rec) \/ rec.ev = "StakingEndBlock" THEN {}
+      \* (an end blocker that fails halts the chain: what it wrote before failing is no chain state; the failure itself is C17's)
+      ELSE IF IsSlash(rec) \/ rec.ev = "StakingEndBlock" \/ rec.ev = "EndBlock" THEN {}
       ELSE Check("C02", IF gh.unbOff THEN KeyBag(gh.unb) = KeyBag(LedgerOfState(post)) ELSE BagOfSeq(gh.unb) = UnbBagOfState(post), "pending unbonding entries changed by " \o rec.ev)
 
 C07_Unb_Step(pre, rec, post, gh) ==
@@ -463,15 +475,14 @@ C07_Unb_Step(pre, rec, post, gh) ==
         want == SlashLedger(gh.unb, v, f, pre.now)
         cut(a) == BSum({i \in DOMAIN gh.unb : gh.unb[i].a = a}, LAMBDA i : BSub(gh.unb[i].amt, want[i].amt))
         denoms == {gh.unb[i].a : i \in DOMAIN gh.unb} \cup DOMAIN pre.bank.fee \cup DOMAIN post.bank.fee
-    IN  CheckK("C07", BagOfSeq(want) = UnbBagOfState(post), HookFundsKF(rec, gh),
+    IN  CheckK("C07", BagOfSeq(want) = UnbBagOfState(post), HookFundsKF(rec, gh, pre),
               "slash of " \o v \o " by " \o f \o ": pending unbondings are not (each entry of that validator reduced once by floor(f*balance), all others untouched)")
-        \cup UNION {CheckK("C07", BSub(Get(post.bank.fee, a), Get(pre.bank.fee, a)) = cut(a), HookFundsKF(rec, gh),
+        \cup UNION {CheckK("C07", BSub(Get(post.bank.fee, a), Get(pre.bank.fee, a)) = cut(a), HookFundsKF(rec, gh, pre),
                           "slash of " \o v \o ": fee collector received " \o BSub(Get(post.bank.fee, a), Get(pre.bank.fee, a)) \o " " \o a \o
                           " but the pending unbondings of that validator lose " \o cut(a)) : a \in denoms}
 
 -----------------------------------------------------------------------------
 (* C06 bonded stake: proportional, targeted, value conserving *)
-RedDstOut(gh, pre, v) == {<<gh.red[i].d, gh.red[i].dst, gh.red[i].a>> : i \in {i \in DOMAIN gh.red : gh.red[i].src = v /\ gh.red[i].due >= pre.now}}
 C06_Step(pre, rec, post, gh) ==
   IF ~(SlashValid(rec) /\ ValExists(pre, rec.args.v)) THEN {}
   ELSE
@@ -507,7 +518,8 @@ C06_Step(pre, rec, post, gh) ==
               orphaning == (\E t \in targets : t[3] = a /\ (OrphanedOnValidator(post, t[2], a) \/ OrphanedOnValidator(pre, t[2], a)))
                            \/ \E w \in DOMAIN post.vals : OrphanedOnValidator(post, w, a)
           IN  IF OrphanedTotal(pre, a) \/ OrphanedTotal(post, a) \/ a \notin DOMAIN post.assets THEN {}
-              ELSE CheckK("C06", RLe(RSub(sumPre, RInt(slack)), sumPost), IF orphaning THEN "K8" ELSE "",
+              \* K13: the shares of a removed validator still count in the asset's share total and take their part of the redistribution
+              ELSE CheckK("C06", RLe(RSub(sumPre, RInt(slack)), sumPost), IF orphaning THEN "K8" ELSE IF IsPos(OrphanShares(gh, a)) THEN "K13" ELSE "",
                           "slash of " \o v \o ": the positions of " \o a \o " were worth " \o RFloor(sumPre) \o " before and " \o RFloor(sumPost) \o " after: value was destroyed, not redistributed")
           : a \in as \cup {t[3] : t \in targets}}
 
@@ -550,7 +562,7 @@ C07_Red_Step(pre, rec, post, gh) ==
                      amt |-> BSum({i \in hit : <<gh.red[i].due, gh.red[i].a, gh.red[i].dst, gh.red[i].d>> = korder[n]}, LAMBDA i : gh.red[i].amt)]]
         targets == {<<gh.red[i].d, gh.red[i].dst, gh.red[i].a>> : i \in hit}
         others == {k \in DOMAIN pre.dels : k \notin targets}
-        live == {k \in targets : k \in DOMAIN pre.dels}
+        live == {k \in targets : k \in DOMAIN pre.dels /\ k[3] \in DOMAIN pre.assets /\ k[3] \in DOMAIN post.assets}    \* (not: records left behind in a deleted asset)
         sh0 == [k \in live |-> Rat(pre.dels[k].shares, "1")]
         ds0 == [vk \in {<<k[2], k[3]>> : k \in live} |-> Rat(Get(Info(pre, vk[1]).dshares, vk[2]), "1")]
         expect == ExpectRedSlash(post, order, f, sh0, ds0)
@@ -568,7 +580,7 @@ C07_Red_Step(pre, rec, post, gh) ==
                            \* position at the whole staked total), so "shares worth floor(f*redelegated)" is whatever that yields
                            IF MergedRecord(gh, k) THEN "K4" ELSE IF OrphanedTotal(pre, k[3]) THEN "K3b"
                            \* K8: the callback converts the tokens to take into shares with the same 1:1 shortcut / 0.01-share margin
-                           ELSE IF OrphanedOnValidator(pre, k[2], k[3]) \/ PriceInflated(pre, k[2], k[3]) THEN "K8" ELSE HookFundsKF(rec, gh),
+                           ELSE IF OrphanedOnValidator(pre, k[2], k[3]) \/ PriceInflated(pre, k[2], k[3]) THEN "K8" ELSE HookFundsKF(rec, gh, pre),
                            "slash of " \o v \o " by " \o f \o ": destination position " \o ToString(k) \o " did not lose the shares worth floor(f*redelegated) = " \o want(k) \o
                            " (capped at what it holds) per pending entry") : k \in live}
 
@@ -578,7 +590,7 @@ C08_Step(pre, rec, post, gh) ==
   IF ~(SlashValid(rec) /\ ValExists(pre, rec.args.v)) THEN {}
   ELSE CheckK("C08", rec.ev # "SlashHook" \/ (rec.res.ok /\ ~rec.res.panic),
               \* the callback claims rewards for the destination positions of pending redelegations: a short pool (K1, K2) makes it fail
-              HookFundsKF(rec, gh),
+              HookFundsKF(rec, gh, pre),
               "slash callback failed: " \o rec.res.err)
        \cup Check("C08", post.flag, "slash callback did not schedule a rebalance")
        \* ... having applied the slash to all pending unbondings and redelegations of the validator: a callback that returns
@@ -678,7 +690,7 @@ PoolExplained(s, rec, gh) ==
                      BQuo(BAdd(BAdd(Get(s.bank.rewards, rd), PendingIn(s, rd)), ModelClaimable(s, rd)), "1000000000"))
   IN  IF \A rd \in rds : BLe(short(rd), b2(rd)) THEN "K2"
       \* K1: what the slashes on record can have added to the claims (gh.k1), on top of the rounding budget
-      ELSE IF gh.slashed /\ \A rd \in rds : BLe(short(rd), BAdd(b2(rd), Get(gh.k1, rd))) THEN "K1"
+      ELSE IF (gh.slashed \/ ~IsEmptyMap(gh.k1)) /\ \A rd \in rds : BLe(short(rd), BAdd(b2(rd), Get(gh.k1, rd))) THEN "K1"
       ELSE ""
 ProbeKF(s, rec, gh, p) ==
   IF p.errc = "funds" THEN PoolExplained(s, rec, gh)
@@ -687,6 +699,7 @@ ProbeKF(s, rec, gh, p) ==
   ELSE ""
 C05_Probes(s, rec, gh) ==
   UNION {IF p.kind = "delegate" THEN CheckK("C05", p.ok, ProbeKF(s, rec, gh, p), "a user cannot delegate " \o p.x \o " " \o p.a \o " to " \o p.v \o ": " \o p.err)
+         ELSE IF p.kind \in {"claim", "exit"} /\ p.a \notin DOMAIN s.assets THEN {}     \* record left behind in a deleted asset: nothing is reported for it
          ELSE IF p.kind = "claim" THEN CheckK("C05", p.ok, ProbeKF(s, rec, gh, p), "delegator " \o p.d \o " cannot claim rewards of " \o p.v \o "/" \o p.a \o ": " \o p.err)
          ELSE IF p.kind = "exit" THEN CheckK("C05", p.ok, ProbeKF(s, rec, gh, p), "delegator " \o p.d \o " cannot undelegate the reported balance " \o p.x \o " " \o p.a \o " from " \o p.v \o ": " \o p.err)
          ELSE {} : p \in ProbeSet(rec)}
@@ -695,7 +708,7 @@ C12_Probes(s, rec, gh) ==
   LET rds == UNION {{p.paid[i].a : i \in DOMAIN p.paid} : p \in ClaimProbes(rec)}
       hasAll == \E p \in ProbeSet(rec) : p.kind = "claimAll"
       kf == PoolExplained(s, rec, gh)
-  IN  UNION {CheckK("C12", p.ok, IF p.errc = "funds" THEN kf ELSE IF p.errc = "novalidator" /\ DOMAIN gh.orphans # {} THEN "K13" ELSE "", "claiming every position in order '" \o p.order \o "' fails: " \o p.err) : p \in {p \in ProbeSet(rec) : p.kind = "claimAll"}}
+  IN  UNION {CheckK("C12", p.ok \/ p.errc = "noasset", IF p.errc = "funds" THEN kf ELSE IF p.errc = "novalidator" /\ DOMAIN gh.orphans # {} THEN "K13" ELSE "", "claiming every position in order '" \o p.order \o "' fails: " \o p.err) : p \in {p \in ProbeSet(rec) : p.kind = "claimAll"}}
       \cup (IF hasAll THEN UNION {CheckK("C12", ~IsPos(Shortfall(s, rec, rd)), kf,
                          "positions can claim " \o Claimable(rec, rd) \o " " \o rd \o " in total but the rewards pool holds " \o Get(s.bank.rewards, rd) \o
                          " and the distribution module owes it " \o PendingIn(s, rd)) : rd \in rds}
